@@ -1,6 +1,7 @@
 //! Correspondence harness: runs the real borsh implementation (built from /repo's
 //! working tree) on one case per input line.
 //! Line format (TAB separated):  id  op  tid  TYPE  arg...
+mod alloc_count;
 mod catalogue;
 mod errs;
 mod ext;
@@ -10,10 +11,15 @@ mod ext_schema;
 mod ext_spec;
 mod model;
 mod ops;
+mod ops_cost;
 mod ops_io;
 mod ops_schema_ty;
 mod ops_canon;
+mod sizes_gen;
 mod val;
+
+#[global_allocator]
+static GLOBAL: alloc_count::Counting = alloc_count::Counting;
 
 use std::collections::HashMap;
 use std::io::{BufRead, Write};
